@@ -27,8 +27,8 @@ ASSUMPTIONS = [
     'decides purity and absence of cached/derived state, not textual equality with an independently rebuilt model',
     'call resolution is name-based where receiver types are unknown (over-approximation of the closure)',
 ]
-ENGINES = ['pyindex', 'effects']
-TECHNIQUE = 'static analysis (ast): interprocedural mutation/freshness summaries over the render call-graph closure; attribute-store classification'
+ENGINES = ['pyindex', 'effects', 'paths']
+TECHNIQUE = 'static analysis (ast): interprocedural mutation/freshness summaries over the render call-graph closure; attribute-store classification; link obligations (rendered object holds the edited object); presence tests vs constructor normalisation'
 
 MODEL_MODULE_PREFIXES = ('pydbml._classes.', 'pydbml.database')
 COMPUTED_VIEWS = [('pydbml._classes.index', 'Index', 'subject_names'), ('pydbml._classes.reference', 'Reference', 'table1'),
